@@ -218,6 +218,9 @@ struct NodeEval {
     spurious_nopoint: bool,
     /// the reported result contradicts the fold's definition (see `SIG_REPORT`)
     anomaly: Option<String>,
+    /// two DISTINCT coordinates at or right of split_pos share the smallest rounded distance: which
+    /// becomes the pivot depends on the order of the items and, with several chunks, on rayon's split
+    tie_possible: bool,
 }
 
 /// `xs`, `ws`: the node's items (split axis); `order[..split]` = the low side the implementation made.
@@ -312,6 +315,12 @@ fn eval_node(
     //      split_pos among the items at or right of it (K2 is: a nearer item with an EQUAL rounded
     //      distance; an item with a strictly smaller rounded distance is never passed over).
     let mut anomaly = None;
+    let mut tie_possible = false;
+    if split < n {
+        let pv = order[split..].iter().map(|&i| xs[i]).fold(f32::INFINITY, f32::min);
+        let dp = pv - split_pos;
+        tie_possible = (0..n).any(|i| !(xs[i] - split_pos < 0.0) && xs[i] != pv && xs[i] - split_pos == dp);
+    }
     if split < n {
         let strictly_left: i64 = (0..n).filter(|&i| xs[i] - split_pos < 0.0).map(|i| ws[i]).sum();
         if wl_reported != strictly_left {
@@ -332,7 +341,7 @@ fn eval_node(
     } else if n > 0 && wl_reported != sum_passed {
         anomaly = Some(format!("all-left exit reports weight_left {} instead of the sum {} it was given", wl_reported, sum_passed));
     }
-    NodeEval { w, wl, within_tol, brackets, k2_here, premise, below, above, distinct: m, spurious_nopoint, anomaly }
+    NodeEval { w, wl, within_tol, brackets, k2_here, premise, below, above, distinct: m, spurious_nopoint, anomaly, tie_possible }
 }
 
 fn signature(anomalous: bool, k2: bool, exit: Option<Exit>, wl: i64, w: i64, spurious_nopoint: bool) -> &'static str {
@@ -1050,10 +1059,25 @@ fn run_tree(ctx: &mut Ctx, op: &str, rib: bool, d: usize, iter: usize, tol: f64,
         // the API run and the hook replay may legitimately cut a K2-type node differently. The nodes
         // of the API's tree cannot be attributed to causes then; the ids must still be a bisection.
         ctx.count("large_n_replay_differs");
-        let verdicts = match ids_not_bisection(d, iter, pts, &ids) {
+        let mut verdicts = match ids_not_bisection(d, iter, pts, &ids) {
             Some(what) => vec![("rcb-not-a-bisection".to_string(), what)],
             None => vec![],
         };
+        // The only chunk-dependent choice is the pivot among DISTINCT coordinates with the same smallest
+        // rounded distance; the first node where the two runs part is a node of both trees. If the
+        // replayed tree has no such node the difference has another cause – e.g. a pass that runs once
+        // per call over all n items (the sum, the coordinate conversion, …) and that only the API ran.
+        if !nodes.iter().any(|nd| nd.eval.tie_possible || nd.drift || nd.mismatch) {
+            ctx.count("large_n_replay_differs_unexplained");
+            verdicts.push((
+                "rcb-large-n-replay-differs-unexplained".to_string(),
+                format!(
+                    "n = {}: the ids of the public API differ from the node-by-node replay through the par_rcb_split hook although no node of the replayed tree ({} nodes) has two distinct coordinates at the same smallest rounded distance",
+                    n,
+                    nodes.len()
+                ),
+            ));
+        }
         finish(ctx, op, "ok large-n replay-differs".into(), false, verdicts);
         return;
     }
@@ -1471,6 +1495,41 @@ fn gen_large(ctx: &mut Ctx) {
         ctx.count(&format!("large_n_threads_{}", threads));
         let op = format_tree_op(false, d, iter, tol, threads, &ws, &xs, &[]);
         run_op(ctx, &op);
+    }
+    // other pool sizes, larger inputs, n neither a multiple of the pool size nor of 4096: passes that run
+    // once per call over all n items (the sum of the weights, the conversion of the coordinates, the
+    // bounding box) and large nodes relative to the pool
+    const MORE: [(usize, usize, usize, usize); 12] = [
+        (2, 1, 16385, 24000),
+        (3, 2, 16385, 24000),
+        (5, 1, 20481, 24000),
+        (1, 1, 16385, 70001),
+        (16, 1, 70001, 70001),
+        (16, 2, 140003, 140003),
+        (2, 2, 32769, 70001),
+        (3, 1, 24577, 70001),
+        (5, 2, 40961, 70001),
+        (4, 1, 32769, 140003),
+        (1, 2, 16385, 140003),
+        (2, 1, 16385, 140003),
+    ];
+    let more: &[(usize, usize, usize, usize)] = if ctx.quick() { &MORE[..3] } else { &MORE[..] };
+    for rep in 0..ctx.budget(1, 2) {
+        for (k, &(threads, iter, lo, hi)) in more.iter().enumerate() {
+            let mut n = lo + ctx.rng.usize(hi - lo + 1);
+            while n % threads.max(2) == 0 || n % 4096 == 0 {
+                n += 1;
+            }
+            let d = if n > 80000 { 2 } else { 2 + ((k + rep) % 2) };
+            let shape = (k + rep) % 3;
+            let tol = gen_tol(&mut ctx.rng);
+            let xs = gen_large_points(&mut ctx.rng, n, d, shape);
+            let ws: Vec<i64> = if ctx.rng.chance(1, 2) { vec![1; n] } else { (0..n).map(|_| ctx.rng.range(0, 100)).collect() };
+            ctx.count("large_n_rcb_more_pools");
+            ctx.count(&format!("large_n_threads_{}", threads));
+            let op = format_tree_op(false, d, iter, tol, threads, &ws, &xs, &[]);
+            run_op(ctx, &op);
+        }
     }
     // one search through the hook (global pool: as many workers as cores), exact data interval
     for k in 0..ctx.budget(2, 20) {
